@@ -1,5 +1,6 @@
 CONSTANTS Realms = {}  Home = "R0.AS.TEST"  Etypes = {16, 17, 18, 19, 20, 23}  Preferred = 17  Creds <- TCreds  MaxReferrals = 5
-          HintsOnFailed = TRUE  BoundReferrals = TRUE  Faithful = TRUE  Codes = {}  MaxLogins = 1000
+          HintsOnFailed = TRUE  BoundReferrals = TRUE
+  UnsolicitedFromTkt = TRUE  Faithful = TRUE  Codes = {}  MaxLogins = 1000
 SPECIFICATION TSpec
 CONSTRAINT Mark
 INVARIANTS SendsBounded OkOnlyOnGoodReply ErrorCodeSurfaced KeyHeld
